@@ -5,7 +5,7 @@
 // back with the real mesh_reader (read() and get_cell_types()) and answers with the bytes of the file and a
 // dump of what was read.
 //
-//   pop <ncells> then per cell:
+//   pop|popc <ncells> then per cell:      (pop: mesh_writer::write; popc: mesh_writer::write_cell_data_file(path, cells), rebase = true)
 //       <class 0..4 = epithelial, ecm, lumen, nucleus, static | 5 = plain cell without a type> <cell id>
 //       <#node slots> <#face slots> <#free nodes> <#free faces>
 //       node slots:  <x hex> <y hex> <z hex>          (free slots too: their content must not matter)
@@ -109,7 +109,7 @@ int main(){
         auto nextd = [&]() -> double { if(k >= w.size()) throw std::runtime_error("short request"); return vproto::from_hex(w[k++]); };
         bool written = false;
         try{
-            if(!w.empty() && w[0] == "pop"){
+            if(!w.empty() && (w[0] == "pop" || w[0] == "popc")){
                 const unsigned nc = nextu();
                 std::vector<cell_ptr> cells;
                 for(unsigned ci = 0; ci < nc; ci++){
@@ -134,7 +134,8 @@ int main(){
                     cells.push_back(c);
                 }
                 unlink(cell_path.c_str());
-                mesh_writer::write(cell_path, face_path, cells);          // what solver::save_mesh calls
+                if(w[0] == "pop") mesh_writer::write(cell_path, face_path, cells);          // what solver::save_mesh calls
+                else mesh_writer::write_cell_data_file(cell_path, cells);                   // the public overload (compacts the cells itself)
                 written = true;
                 for(auto& c: cells) c->clear_data();
             }
